@@ -787,3 +787,71 @@ func init() {
 		return sched.RunOnce(nil, sched.Options{MaxSteps: 400000}, c14pBody(cs)).Failures
 	}})
 }
+
+// ---------------------------------------------------------------------------
+// C14 (S) the first commands after start when the cluster's nodes share one machine (one IP address, one port
+// each): two connections send their first write at the same time, each for a key of another master, while no
+// backend connection exists yet.
+//
+// bound     all schedules P2 (quick) / P3 F1 (thorough); nodes on one address | on their own addresses (INPUT)
+// oracle    each write arrives at the master that owns its key's slot and nowhere else; both are answered OK
+// ---------------------------------------------------------------------------
+
+func c14sameMachineBody() {
+	sched.SetQuiet(true)
+	cl := cluster.New(3, 0, 3)
+	shared := sched.Choose(sched.ClsInput, 2, "nodes share one machine") == 1
+	if shared {
+		cl.ShareOneMachine()
+	}
+	s := vfStartStack(cl, vfSvcConfig(0, nil, 0))
+	c0, c1 := s.NewClient("c0"), s.NewClient("c1")
+	sched.WaitQuiescent()
+	// the two writes go to masters the proxy has no connection to yet (loading the routing table connected it to one node)
+	var cold []int
+	for g := 0; g < 3; g++ {
+		if _, ok := s.p.u.loadClients()[cl.Owner[g].Addr]; !ok {
+			cold = append(cold, g)
+		}
+	}
+	if len(cold) < 2 {
+		sched.Fail("harness-same-machine", fmt.Sprintf("only %d masters without a connection", len(cold)))
+		return
+	}
+	ka, kb := cl.KeyInGroup("a", cold[0], 0), cl.KeyInGroup("b", cold[1], 0)
+	mark := len(cl.Log)
+	sched.SetQuiet(false)
+	c0.Send(resp.Encode(resp.Cmd("SET", ka, "1")))
+	c1.Send(resp.Encode(resp.Cmd("SET", kb, "2")))
+	sched.WaitQuiescent()
+	sched.SetQuiet(true)
+	tag := fmt.Sprintf("nodes share one machine=%v", shared)
+	for i, c := range []*vfClient{c0, c1} {
+		rs, _ := c.Pending()
+		if len(rs) != 1 || rs[0].Kind != '+' {
+			sched.Fail("first-write-not-answered-OK / nodes sharing one machine", fmt.Sprintf("%s: connection %d got %v", tag, i, rs))
+		}
+	}
+	if r := cl.Redirects(mark); r > 0 {
+		sched.Fail("write-command-sent-to-non-master / first commands, nodes sharing one machine", fmt.Sprintf("%s: %d command(s) arrived at a node that does not own the key's slot (answered MOVED); the routing table was loaded and the layout never changed", tag, r))
+	}
+	for _, e := range cl.DataCmds(mark) {
+		if len(e.Args) < 2 {
+			continue
+		}
+		if owner := cl.OwnerOfKey(e.Args[1]); owner.ID != e.Node {
+			sched.Fail("write-command-sent-to-non-master / first commands, nodes sharing one machine", fmt.Sprintf("%s: %q arrived at %s, the slot's owner is %s", tag, e.Args, e.Node, owner.ID))
+		}
+	}
+	sched.SetOutcome(tag)
+}
+
+func init() {
+	sched.Register(&sched.Scenario{Name: "C14/same-machine", Setup: func(tier string) (sched.Config, func()) {
+		b := sched.Bounds{P: 2}
+		if tier == "thorough" {
+			b = sched.Bounds{P: 3, F: 1}
+		}
+		return sched.Config{Bounds: b, Iterative: true, MaxSteps: 200000}, c14sameMachineBody
+	}})
+}
